@@ -520,7 +520,21 @@ func (s *stdioTransport) processMessage(ctx context.Context, line string, writer
 func (s *stdioTransport) writeResponse(response interface{}, writer io.Writer) error {
 	data, err := json.Marshal(response)
 	if err != nil {
-		return fmt.Errorf("error marshaling response: %w", err)
+		// A result that cannot be encoded still has to be answered: report it as an internal error
+		// carrying the request's id.
+		var id interface{}
+		switch r := response.(type) {
+		case *JSONRPCResponse:
+			id = r.ID
+		case JSONRPCResponse:
+			id = r.ID
+		default:
+			return fmt.Errorf("error marshaling response: %w", err)
+		}
+		data, err = json.Marshal(newJSONRPCErrorResponse(id, ErrCodeInternal, "Internal error", "failed to encode result: "+err.Error()))
+		if err != nil {
+			return fmt.Errorf("error marshaling response: %w", err)
+		}
 	}
 
 	// One frame = one Write of payload and terminator, under a lock: responses are written from one
